@@ -107,7 +107,7 @@ func checkP2(c *Ctx, pr *prioRoles) {
 		return ok && strings.HasSuffix(strings.Join(path, "."), "HandlersQuantity")
 	}
 	if !pr.v1 {
-		prep := p.Func("priority", "prepare")
+		prep := p.prepareFn()
 		var problems []string
 		if prep == nil {
 			c.R.Fail("P2", "v2:priority.prepare", "-", "UNRESOLVED-ANCHOR: prepare not found")
